@@ -197,6 +197,17 @@ def check_to_string_prints_rounded(run, fx):
                   "%s rounds (%s) but the time it writes, `%s`, does not derive from the rounding result: the text is the "
                   "truncated value whatever the rounding mode" %
                   (f.name, show(rounds[0])[:60], show(times[0].parts[1][1])[:100] if len(times[0].parts[1]) > 1 else "?"), f.loc)
+        offs = [c for c in ev.trace if "IxdtfStringBuilder" in str(c.parts[0]) and str(c.parts[0]).rsplit("::", 1)[-1] in
+                ("with_minute_offset", "with_offset", "with_z")]
+        if offs and tsrc and any(len(c.parts[1]) > 1 for c in offs):
+            # the UTC offset that is written belongs to the instant that is written: it derives from the rounding result too
+            osrc = [r for c in offs for a in c.parts[1][1:] for r in from_round(a)]
+            has_val = any(H.has_sym(a) for c in offs for a in c.parts[1][1:])
+            if has_val:
+                run.check(bool(set(osrc) & set(tsrc)), rule, name + "/offset", "the offset written is that of the rounded instant",
+                          "%s writes a time derived from the rounding result but an offset (`%s`) that does not derive from it: "
+                          "rounding across an offset transition prints the old offset with the new wall-clock time" %
+                          (f.name, show(offs[0].parts[1][1])[:100]), f.loc)
         if dates and tsrc:
             dsrc = [r for c in dates for r in from_round(c.parts[1][1])] if all(len(c.parts[1]) > 1 for c in dates) else []
             run.check(bool(set(dsrc) & set(tsrc)), rule, name + "/date", "the date written derives from the same rounding result",
@@ -249,3 +260,214 @@ def check_duration_field_tables(run, fx):
                           "Duration::%s of a duration whose only non-zero field is %s = %s is %s, expected %s" %
                           (name, nz or "none", val, show(got[1])[:60], show(want)), f.loc)
     run.exhaustive_tables.append("Duration field classification (10 fields x 2 signs + zero)")
+
+
+def _iso_date(y, m, d):
+    return H.S("temporal_rs::iso::IsoDate", (("year", y), ("month", m), ("day", d)))
+
+
+def check_regulate_boundaries(run, fx):
+    """C17 / C02: RegulateISODate - constrain clamps month to 1..12 and day to 1..days-in-month, reject refuses"""
+    from .common import fold
+    rule = "R1.regulate-iso-date-boundaries"
+    run.rule(rule, "IsoDate::regulate, constrain_iso_day and is_valid_iso_day folded at both ends of the month and day ranges "
+                   "(0, 1, last, last + 1; February of a common and of a leap year): constrain clamps INTO the range from both "
+                   "sides, reject is a RangeError exactly outside it")
+    rs = fx["temporal_rs"]
+    reg = rs.fn("temporal_rs::iso::IsoDate::regulate")
+    cons = rs.fn("temporal_rs::iso::constrain_iso_day")
+    valid = rs.fn("temporal_rs::iso::is_valid_iso_day")
+    OV = "temporal_rs::options::ArithmeticOverflow::"
+    last = {(2021, 2): 28, (2024, 2): 29, (2021, 4): 30, (2021, 12): 31}
+    for (y, m), n in last.items():
+        for d in (0, 1, n, n + 1, 255):
+            want_d = min(max(d, 1), n)
+            inside = 1 <= d <= n
+            if cons is not None:
+                got = fold(H.Evaluator(fx), cons, [y, m, d])
+                key = "constrain_iso_day/%d-%02d/%d" % (y, m, d)
+                if got[0] == "opaque":
+                    run.ok(rule, key, "does not fold: not decided", cons.loc, nontrivial=False)
+                else:
+                    run.check(got == ("val", want_d), rule, key, "day %d -> %d" % (d, want_d),
+                              "constrain_iso_day(%d, %d, %d) = %s, the day clamped into 1..=%d is %d" % (y, m, d, got[1], n, want_d), cons.loc)
+            if valid is not None:
+                got = fold(H.Evaluator(fx), valid, [y, m, d])
+                key = "is_valid_iso_day/%d-%02d/%d" % (y, m, d)
+                if got[0] == "opaque":
+                    run.ok(rule, key, "does not fold: not decided", valid.loc, nontrivial=False)
+                else:
+                    run.check(got == ("val", inside), rule, key, "day %d valid: %s" % (d, inside),
+                              "is_valid_iso_day(%d, %d, %d) = %s; the month has days 1..=%d" % (y, m, d, got[1], n), valid.loc)
+    if reg is None:
+        run.anchor_missing(rule, "IsoDate::regulate", "not found")
+        return
+    for (y, m, d) in ((2021, 0, 15), (2021, 13, 15), (2021, 1, 0), (2021, 2, 29), (2024, 2, 30), (2021, 6, 15), (2021, 12, 32), (2021, 255, 255)):
+        lm = min(max(m, 1), 12)
+        import calendar as _cal
+        n = _cal.monthrange(y, lm)[1]
+        for ov in ("Constrain", "Reject"):
+            got = fold(H.Evaluator(fx), reg, [y, m, d, H.V(OV + ov, ())])
+            key = "regulate/%d-%d-%d/%s" % (y, m, d, ov)
+            if got[0] == "opaque":
+                run.ok(rule, key, "does not fold: not decided", reg.loc, nontrivial=False)
+                continue
+            if ov == "Constrain":
+                want = ("ok", _iso_date(y, lm, min(max(d, 1), n)))
+            else:
+                want = ("ok", _iso_date(y, m, d)) if (1 <= m <= 12 and 1 <= d <= _cal.monthrange(y, m)[1]) else ("err", "Range")
+            run.check(got == want, rule, key, "-> %s" % (show(want[1])[:50] if want[0] == "ok" else "RangeError"),
+                      "IsoDate::regulate(%d, %d, %d, %s) gives %s, expected %s" %
+                      (y, m, d, ov, show(got[1])[:60] if got[0] != "err" else got, show(want[1])[:60] if want[0] == "ok" else "a RangeError"),
+                      reg.loc)
+    run.exhaustive_tables.append("RegulateISODate boundaries (month / day ends x constrain, reject)")
+
+
+def check_year_month_constructor_limits(run, fx):
+    """C18: the year-month constructor accepts every month of the range whatever reference day it is given"""
+    from .common import fold
+    rule = "R1.year-month-constructor-limits"
+    run.rule(rule, "PlainYearMonth::new_with_overflow, folded on the first and last representable month and the months just "
+                   "outside, with no reference day, the canonical one and an explicit one: the boundary months are accepted (the "
+                   "limit is the year-month limit, not the plain-date limit applied to the hidden reference day), the months "
+                   "outside are RangeErrors")
+    f = fx["temporal_rs"].fn(CORE + "year_month::PlainYearMonth::new_with_overflow")
+    if f is None:
+        run.anchor_missing(rule, "PlainYearMonth::new_with_overflow", "not found")
+        return
+    OV = "temporal_rs::options::ArithmeticOverflow::"
+    cal = H.Sym("param", ("calendar",))
+    for (y, m), inside in (((-271821, 4), True), ((-271821, 3), False), ((275760, 9), True), ((275760, 10), False), ((1970, 1), True)):
+        for ref in (None, 1, 15, 28):
+            ev = H.Evaluator(fx)
+            ev.stubs["Calendar::is_iso"] = lambda a: True
+            args = [y, m, H.V(H.NONE, ()) if ref is None else H.V(H.SOME, (ref,)), cal, H.V(OV + "Reject", ())]
+            if len(f.params) != len(args):
+                run.ok(rule, "signature", "the constructor's parameters changed: not decided", f.loc, nontrivial=False)
+                return
+            got = fold(ev, f, args)
+            key = "%d-%02d/ref=%s" % (y, m, ref)
+            if got[0] == "opaque":
+                # the calendar stays symbolic inside the result: look at the outcome kind only
+                r = got[1]
+                if isinstance(r, H.V) and r.path == H.OK:
+                    got = ("ok", None)
+                else:
+                    run.ok(rule, key, "does not fold: not decided", f.loc, nontrivial=False)
+                    continue
+            run.check((got[0] == "ok") == inside and (inside or got == ("err", "Range")), rule, key,
+                      "%s" % ("accepted" if inside else "RangeError"),
+                      "PlainYearMonth::new_with_overflow(%d, %d, reference day %s) gives %s; the month is %s the year-month range" %
+                      (y, m, ref, got[0] if got[0] != "err" else "a %sError" % got[1], "inside" if inside else "outside"), f.loc)
+    run.exhaustive_tables.append("year-month constructor limits (boundary months x reference day)")
+
+
+def check_seconds_subseconds(run, fx):
+    """C06: NormalizedTimeDurationSeconds / Subseconds split the total consistently"""
+    from .common import fold
+    rule = "R1.time-duration-seconds-split"
+    run.rule(rule, "NormalizedTimeDuration::seconds and ::subseconds, folded on positive and negative totals that are and are not "
+                   "whole seconds: seconds x 10^9 + subseconds equals the total and both carry the sign of the total (truncation "
+                   "towards zero for both, as AddTime expects)")
+    rs = fx["temporal_rs"]
+    sec = rs.fn1("NormalizedTimeDuration::seconds")
+    sub = rs.fn1("NormalizedTimeDuration::subseconds")
+    if sec is None or sub is None:
+        run.anchor_missing(rule, "seconds/subseconds", "NormalizedTimeDuration::seconds / subseconds not found")
+        return
+    N = CORE + "duration::normalized::NormalizedTimeDuration"
+    for x in (0, 1, -1, 999_999_999, -999_999_999, 10 ** 9, -10 ** 9, 1_500_000_000, -1_500_000_000, -250_000_000, 2 ** 53 * 10 ** 9 - 1,
+              -(2 ** 53 * 10 ** 9 - 1)):
+        a, b = fold(H.Evaluator(fx), sec, [H.V(N, (x,))]), fold(H.Evaluator(fx), sub, [H.V(N, (x,))])
+        key = "total/%d" % x
+        if a[0] != "val" or b[0] != "val" or not isinstance(a[1], int) or not isinstance(b[1], int):
+            run.ok(rule, key, "does not fold: not decided", sec.loc, nontrivial=False)
+            continue
+        s_, n_ = a[1], b[1]
+        ok = s_ * 10 ** 9 + n_ == x and (x >= 0 or (s_ <= 0 and n_ <= 0)) and (x <= 0 or (s_ >= 0 and n_ >= 0))
+        run.check(ok, rule, key, "%d = %d s + %d ns" % (x, s_, n_),
+                  "a total of %d ns is split into %d s and %d ns subseconds: the parts do not add up to the total with its sign" %
+                  (x, s_, n_), sub.loc)
+    run.exhaustive_tables.append("seconds / subseconds split (sign x whole / fractional seconds)")
+
+
+def check_from_epoch_nanos(run, fx):
+    """C01 / C13: GetISOPartsFromEpoch + offset: floor semantics on negative and sub-minute offsets"""
+    from .common import fold
+    import datetime
+    rule = "R5.iso-parts-from-epoch"
+    run.rule(rule, "IsoDateTime::from_epoch_nanos(epoch ns, offset ns), folded on instants before and after the epoch with "
+                   "positive, negative, whole-minute and sub-minute offsets, is the proleptic Gregorian date-time of epoch + "
+                   "offset (floor division on every component)")
+    f = fx["temporal_rs"].fn("temporal_rs::iso::IsoDateTime::from_epoch_nanos")
+    if f is None:
+        run.anchor_missing(rule, "from_epoch_nanos", "not found")
+        return
+    E = "temporal_rs::epoch_nanoseconds::EpochNanoseconds"
+    base = datetime.datetime(1970, 1, 1)
+    for ns, off in ((0, 0), (0, -1), (-1, 0), (0, -17_762_000_000_000), (0, 17_762_000_000_000), (-1_000_000_001, -30_000_000_000),
+                    (86_399_999_999_999, 1), (1_700_000_000_123_456_789, -3_600_000_000_000), (-2_208_988_800_000_000_000, -17_762_000_000_000)):
+        got = fold(H.Evaluator(fx), f, [H.V(E, (ns,)), off])
+        tot = ns + off
+        days, rem = divmod(tot, 86_400 * 10 ** 9)
+        d = base.date() + datetime.timedelta(days=days)
+        h, rem = divmod(rem, 3600 * 10 ** 9)
+        mi, rem = divmod(rem, 60 * 10 ** 9)
+        s_, rem = divmod(rem, 10 ** 9)
+        ms, rem = divmod(rem, 10 ** 6)
+        us, nn = divmod(rem, 1000)
+        want = H.S("temporal_rs::iso::IsoDateTime", (("date", _iso_date(d.year, d.month, d.day)),
+                                                      ("time", H.S("temporal_rs::iso::IsoTime", (("hour", h), ("minute", mi), ("second", s_),
+                                                                                                ("millisecond", ms), ("microsecond", us), ("nanosecond", nn))))))
+        key = "epoch%+d/offset%+d" % (ns, off)
+        if got[0] == "opaque":
+            run.ok(rule, key, "does not fold: not decided", f.loc, nontrivial=False)
+            continue
+        run.check(got == ("ok", want), rule, key, "%s" % show(want)[:70],
+                  "from_epoch_nanos(%d, offset %d) = %s, the date-time of epoch + offset is %sT%02d:%02d:%02d.%03d%03d%03d" %
+                  (ns, off, show(got[1])[:110] if got[0] != "err" else got, d.isoformat(), h, mi, s_, ms, us, nn), f.loc)
+    run.exhaustive_tables.append("GetISOPartsFromEpoch (sign of instant x sign / granularity of offset)")
+
+
+def check_parse_time_requires_time(run, fx):
+    """C12: a time string needs a time: a date-only string is not midnight"""
+    from .common import fold, is_ok
+    rule = "R11.parse-time-requires-a-time"
+    run.rule(rule, "parse_time, folded with parse_ixdtf replaced by its possible outcomes (time goal fails; date-time goal gives a "
+                   "record with / without a time part): a record without a time part is a RangeError, never a defaulted "
+                   "midnight; a record with one yields that time")
+    f = fx["temporal_rs"].fn("temporal_rs::parsers::parse_time")
+    if f is None:
+        run.anchor_missing(rule, "parse_time", "not found")
+        return
+    REC = "ixdtf::parsers::records::IxdtfParseRecord"
+    tm = H.Sym("param", ("the_time",))
+
+    def rec(time):
+        return H.S(REC, (("date", H.V(H.SOME, (H.Sym("param", ("date",)),))), ("time", time), ("offset", H.V(H.NONE, ())),
+                         ("tz", H.V(H.NONE, ())), ("calendar", H.V(H.NONE, ()))))
+    for name, time_val, want in (("date-only", H.V(H.NONE, ()), "err"), ("date-time", H.V(H.SOME, (tm,)), "ok")):
+        ev = H.Evaluator(fx)
+        ev.inline = lambda p: p.startswith("temporal_rs::")
+
+        def stub(args, time_val=time_val):
+            variant = args[1] if len(args) > 1 else None
+            if isinstance(variant, H.V) and variant.path.endswith("ParseVariant::Time"):
+                return H.V(H.ERR, (H.S("temporal_rs::error::TemporalError", (("kind", H.V("temporal_rs::error::ErrorKind::Range", ())),
+                                                                          ("msg", H.Sym("msg", ())))),))
+            return H.V(H.OK, (rec(time_val),))
+        ev.stubs["parsers::parse_ixdtf"] = stub
+        got = fold(ev, f, ["SRC"])
+        if got[0] == "opaque" and isinstance(got[1], H.V) and got[1].path == H.OK:
+            got = ("ok", got[1].args[0])
+        if got[0] == "opaque":
+            run.ok(rule, name, "parse_time does not fold on the stubbed parser outcomes: not decided", f.loc, nontrivial=False)
+            continue
+        if want == "err":
+            run.check(got == ("err", "Range"), rule, name, "a record without a time part -> RangeError",
+                      "parse_time accepts a date-only string (the date-time fallback produced a record without a time part) and "
+                      "returns %s instead of a RangeError" % (show(got[1])[:80] if got[0] != "err" else got,), f.loc)
+        else:
+            run.check(got[0] == "ok" and tm in list(walk(got[1])) + [got[1]], rule, name, "a record with a time part -> that time",
+                      "parse_time does not return the time part of a date-time string: %s" % (show(got[1])[:80] if got[0] != "err" else got,),
+                      f.loc)
